@@ -21,7 +21,8 @@ type Job struct {
 	Program string   `json:"program"`
 	Input   string   `json:"input"`
 	Origin  string   `json:"origin"`
-	Vars    []string `json:"vars,omitempty"` // names "$v", values built like inputs
+	Vars    []string `json:"vars,omitempty"` // value of $v (JSON text), built like inputs
+	Mode    string   `json:"mode,omitempty"` // C06: restrict to one mode
 }
 
 // LoadJobs reads a JSON array of jobs written by the check (corpus extracted from cli/test.yaml).
